@@ -79,9 +79,10 @@ func regionErr(kind uint64, c *uni.Call) *errorpb.Error {
 
 // faultPlan decides, deterministically from (seed, command, first key, occurrence number), which RPCs of
 // one client's transactions get a region error or a topology change executed inside the RPC.  At most two
-// injected region errors per (command, first key) and maxInjected per plan: the retry budgets of the client
-// (20 s of accounted back-off for the clean-up paths) are never near exhaustion, so a clean-up that gives up
-// cannot be blamed on the harness.
+// injected region errors per (command, first key), six per command, maxInjected per plan, and at most two
+// ServerIsBusy (the only kind whose accounted back-off is seconds; the others cost <= 0.5 s each): the retry
+// budgets of the client (>= 20 s of accounted back-off per clean-up action) are never near exhaustion, so a
+// clean-up that gives up cannot be blamed on the harness.
 type faultPlan struct {
 	mu                         sync.Mutex
 	u                          *uni.Universe
@@ -92,7 +93,8 @@ type faultPlan struct {
 	only                       func(ts uint64) bool // which transactions are subject to faults
 	occ                        map[string]int
 	inj                        map[string]int
-	nInj, nTopo                int
+	nInj, nTopo, nBusy         int
+	perCmd                     map[tikvrpc.CmdType]int
 
 	// commit gate of the subject: the closure runs inside the gateAt-th Prewrite RPC that carries gateKey
 	gateKey  string
@@ -133,10 +135,20 @@ func (p *faultPlan) decide(c *uni.Call) uni.Action {
 	if cleanup {
 		pct = p.cleanupPct
 	}
-	if int(h%100) < pct && p.inj[id] < 2 && p.nInj < p.maxInjected {
+	if int(h%100) < pct && p.inj[id] < 2 && p.nInj < p.maxInjected && p.perCmd[c.Cmd] < 6 {
+		re := regionErr(h>>16, c)
+		if re.ServerIsBusy != nil {
+			// the only kind with an expensive (accounted) back-off: at most two per plan
+			if p.nBusy >= 2 {
+				re = regionErr(0, c)
+			} else {
+				p.nBusy++
+			}
+		}
 		p.inj[id]++
 		p.nInj++
-		return uni.Action{Kind: uni.RegionErr, RegErr: regionErr(h>>16, c)}
+		p.perCmd[c.Cmd]++
+		return uni.Action{Kind: uni.RegionErr, RegErr: re}
 	}
 	if int((h>>8)%100) < p.topo && p.nTopo < p.maxTopo {
 		p.nTopo++
